@@ -11,6 +11,14 @@ def set_profile(ex, st, R, n, nb, tag):
         v = z3.Real('%s_%d' % (tag, i)); st.sym[R['proj0'] + 4 * i] = (4, 'f', v); vs.append(v)
     return vs
 
+def zstate(R, N):
+    """a fresh state in which the impedance samples above N/2 (which the harness' random table leaves zero, as the built-in models do) hold arbitrary values - a full-length user table.
+    The wake potential never reads them (C06); the CSR spectrum is formed over all N bins, so anything an earlier call left in the upper half of a shared buffer shows there"""
+    st = State()
+    for k in range(N // 2 + 1, N):
+        st.sym[R['zdata'] + 8 * k] = (4, 'f', z3.Real('zu%d_re' % k)); st.sym[R['zdata'] + 8 * k + 4] = (4, 'f', z3.Real('zu%d_im' % k))
+    return st
+
 CUT_ON = Fraction(f32(3e11))
 def do_ops(ex, st, R, op, cutoff):
     """every path of one call (a call that decides on the data forks)"""
@@ -51,13 +59,13 @@ def job_history(res, n, N, spacing, buckets, maxlen, cutoff_on):
     # reference: a fresh object on the current profile - every path of the query, each with its own result
     fresh = {}
     for q in 'wpc':
-        fft = UFFFT(plans); ex = Exec(mod, snap, RealDom(), {'fftwf_execute': fft}); st = State()
+        fft = UFFFT(plans); ex = Exec(mod, snap, RealDom(), {'fftwf_execute': fft}); st = zstate(R, N)
         set_profile(ex, st, R, n, nb, 'cur')
         fresh[q] = [(s1.pc, observe(ex, s1, R, q, n, nb, N)) for s1 in do_ops(ex, st, R, q, cutoff)]
         account(res, ex, mod, [])
     hist = [h for L in range(1, maxlen + 1) for h in itertools.product('wpcC', repeat=L)]
     for h in hist:
-        fft = UFFFT(plans); ex = Exec(mod, snap, RealDom(), {'fftwf_execute': fft}); states = [State()]
+        fft = UFFFT(plans); ex = Exec(mod, snap, RealDom(), {'fftwf_execute': fft}); states = [zstate(R, N)]
         for j, op in enumerate(h):
             nxt = []
             for st in states:
@@ -69,7 +77,7 @@ def job_history(res, n, N, spacing, buckets, maxlen, cutoff_on):
                 cur = set_profile(ex, s2, R, n, nb, 'cur')
                 for s3 in do_ops(ex, s2, R, q, cutoff):
                     got = observe(ex, s3, R, q, n, nb, N); account(res, ex, mod, [s3])
-                    def cex(m, h=h, q=q): return {'replay': 'history', 'n': n, 'N': N, 'spacing': spacing, 'buckets': list(buckets), 'history': list(h), 'query': q, 'cutoff': float(cutoff), 'cutoff2': 0.0 if cutoff else float(CUT_ON), 'ztail': ztail,
+                    def cex(m, h=h, q=q): return {'replay': 'history', 'n': n, 'N': N, 'spacing': spacing, 'buckets': list(buckets), 'history': list(h), 'query': q, 'cutoff': float(cutoff), 'cutoff2': 0.0 if cutoff else float(CUT_ON), 'ztail': ztail, 'zupper': [x for k in range(N // 2 + 1, N) for x in ((lambda v: 0.6 if v is None else v)(mval(m, z3.Real('zu%d_re' % k))), (lambda v: 0.0 if v is None else v)(mval(m, z3.Real('zu%d_im' % k))))],
                                                     'profiles': [[(mval(m, z3.Real('old%d_%d' % (j, i))) or 0.0) for i in range(nb * n)] for j in range(len(h))], 'cur': [mval(m, v) for v in cur]}
                     # the fresh object's result on the same current profile: the reference path whose condition the current profile satisfies
                     differs = z3.Or(*[z3.And(z3.And(*fpc) if fpc else z3.BoolVal(True), z3.Or(*[a != b for a, b in zip(got, fgot)])) for fpc, fgot in fresh[q]])
@@ -84,6 +92,7 @@ def replayer(bld):
     def rp(path, c):
         n, N = c['n'], c['N']
         base = {'n': n, 'N': N, 'spacing': c['spacing'], 'buckets': c['buckets'], 'cutoff': c.get('cutoff', 0.0), 'cutoff2': c.get('cutoff2', 0.0), 'ztail': c.get('ztail', 0)}
+        if c.get('zupper'): base['zupper'] = [float(x) for x in c['zupper']]
         # concrete profiles: model values may be 0 everywhere except a few cells; make the old profiles clearly different from the current one
         import random as _r; rr = _r.Random(5)
         olds = [[float(v) if v else rr.uniform(0.1, 1.0) for v in p] for p in c['profiles']]; cur = [float(v or 0.0) for v in c['cur']]      # earlier profiles: generic where the model left them open; the current profile exactly as the model has it (an empty or negative profile may be what matters)
